@@ -933,7 +933,35 @@ impl Vm {
     })
   }}
 
+  /// Is this fiber retrying an import whose module is still running. The completion of any
+  /// fiber this one launched wakes it, not just that of the fiber running the module
+  fn import_still_running(&mut self) -> bool {
+    let fiber = self.fiber;
+
+    match self
+      .pending_imports
+      .iter()
+      .position(|(importer, _)| *importer == fiber)
+    {
+      Some(index) => {
+        if self.pending_imports[index].1.is_complete() {
+          self.pending_imports.swap_remove(index);
+          false
+        } else {
+          true
+        }
+      },
+      None => false,
+    }
+  }
+
   pub(super) unsafe fn op_import(&mut self) -> ExecutionSignal { unsafe {
+    if self.import_still_running() {
+      self.update_ip(-1);
+      self.fiber.sleep();
+      return ExecutionSignal::ContextSwitch;
+    }
+
     let index_path = self.read_short();
     let path = self.read_constant(index_path).to_obj().to_list();
 
@@ -967,6 +995,7 @@ impl Vm {
 
         let import_fiber = self.create_fiber(fun, Some(self.fiber));
 
+        self.pending_imports.push((self.fiber, import_fiber));
         self.fiber_queue.push_back(import_fiber);
         ExecutionSignal::ContextSwitch
       },
@@ -991,6 +1020,12 @@ impl Vm {
   }}
 
   pub(super) unsafe fn op_import_symbol(&mut self) -> ExecutionSignal { unsafe {
+    if self.import_still_running() {
+      self.update_ip(-1);
+      self.fiber.sleep();
+      return ExecutionSignal::ContextSwitch;
+    }
+
     let index_path = self.read_short();
     let index_name = self.read_short();
     let path = self.read_constant(index_path).to_obj().to_list();
@@ -1050,6 +1085,7 @@ impl Vm {
 
         let import_fiber = self.create_fiber(fun, Some(self.fiber));
 
+        self.pending_imports.push((self.fiber, import_fiber));
         self.fiber_queue.push_back(import_fiber);
         ExecutionSignal::ContextSwitch
       },
